@@ -120,4 +120,21 @@ repaired("update_custom_metadata(pf, {'k': 5}); pf._write_common_metadata()", tr
          lambda g: g[0] == "TypeError" and g[3] is True and g[7] == 5 and g[9] is True)
 repaired("update_custom_metadata(pf, {'k': 5}); pf.write_row_groups([])", trunc(lambda pf: pf.write_row_groups([])),
          lambda g: g[0] == "TypeError" and g[3] is True and g[7] == 5 and g[9] is True)
+
+# C09-P-remove-row-groups-swallows-failed-removal (known): a failing remove_with is swallowed, the files stay, unreferenced
+def rm_swallowed(d):
+    write(d, pd.DataFrame({"x": range(6)}), file_scheme="hive", row_group_offsets=[0, 3])
+    pf = ParquetFile(d)
+
+    def failing(paths):
+        raise OSError(13, "permission denied (injected)", paths[0])
+    try:
+        pf.remove_row_groups(pf.row_groups[0], remove_with=failing)
+    except Exception as e:
+        return (type(e).__name__, str(e))
+    return ("no exception", sorted(os.listdir(d)), "referenced", [rg.columns[0].file_path for rg in ParquetFile(d).row_groups])
+
+
+case("remove_row_groups with a remove_with that raises OSError", rm_swallowed,
+     lambda g: g[0] == "no exception" and "part.0.parquet" in g[1] and g[3] == ["part.1.parquet"])
 sys.exit(0 if ok else 1)
